@@ -20,7 +20,7 @@ pub fn meta() -> PropertyMeta {
     PropertyMeta {
         id: "C01",
         level: "exploration",
-        rule: "(a) raw byte strings (uniform bytes and SCPI-flavoured alphabets); (b) grammar-generated messages (fixed tree and generated trees with default nodes / suffix siblings / anonymous default leaf) put through byte-level mutation (flip, insert, delete, duplicate a slice, splice two messages, truncate) with handler plans that pull 0..6 parameters through every typed conversion (ten integers, f32/f64, bool, bytes, str, block, character, expression, derived enum, numeric_value, unit quantities, amplitude, decibel, AUTO, both list iterators with every spec conversion, and 'all of them on the same token'); EVERY byte prefix of generated messages; (c) ALL strings up to length 6 (quick) / 7 (thorough) over a 19-symbol alphabet with one representative per lexical class against a tree built from those letters with a convert-everything handler; (d) Tokenizer, ChannelList and NumericList driven directly on the same inputs, plus ALL strings up to length 6 / 8 over a 14-symbol list alphabet. Invariants: returns without panic (the check runs on a build with debug assertions + overflow checks and on a release build), never the library's internal-parser-error, no iterator yields more items than input bytes + 1. Non-trivial: a data element reached a typed conversion, or processing got past the first byte before the first error.",
+        rule: "(a) raw byte strings (uniform bytes and SCPI-flavoured alphabets); (b) grammar-generated messages (fixed tree and generated trees with default nodes / suffix siblings / anonymous default leaf) put through byte-level mutation (flip, insert, delete, duplicate a slice, splice two messages, truncate) with handler plans that pull 0..6 parameters through every typed conversion (ten integers, f32/f64, bool, bytes, str, block, character, expression, derived enum, numeric_value, unit quantities, amplitude, decibel, AUTO, both list iterators with every spec conversion, and 'all of them on the same token'); EVERY byte prefix of generated messages; (c) ALL strings up to length 6 (quick) / 7 (thorough) over a 19-symbol alphabet with one representative per lexical class against a tree built from those letters with a convert-everything handler; (d) Tokenizer, ChannelList and NumericList driven directly on the same inputs, plus ALL strings up to length 6 / 8 over a 14-symbol list alphabet. Invariants: returns without panic (the check runs on a build with debug assertions + overflow checks and on a release build), never the library's internal-parser-error, no iterator yields more items than input bytes + 1. (e) Long runs (250..262, 508..516, 1000, 4095/4096, 65534..65537, 70000) of one lexical class in every element position, of leading zeros in every numeric field, and of repeated units / data / list entries; handlers that swallow pull errors. Non-trivial: a data element reached a typed conversion, or processing got past the first byte before the first error.",
         assumptions: &["a genuine hang would surface as a timeout of the check (exit 2); termination is witnessed by item counts"],
         run,
     }
